@@ -1293,6 +1293,10 @@ where
     S2: MatrixRef<(T, Index)> + NoInteriorMutability,
 {
     use crate::matrices::iterators::{ColumnReferenceIterator, RowReferenceIterator};
+    assert!(
+        are_same_list(lhs.history, rhs.history),
+        "Record containers must be using the same WengertList"
+    );
     // LxM * MxN -> LxN
     assert!(
         lhs.view_columns() == rhs.view_rows(),
